@@ -682,7 +682,7 @@ func genCase(seed int64, id int, o GenOpts) *Case {
 		c.Lookback = 300_000
 		c.Procs = pick(r, []int{2, 8, 16})
 		i := 0
-		variant := r.Intn(7) // 0-2 regular; 3 no +Inf bucket for foo{a="y"}; 4 non-monotonic counts; 5 gaps and a non-numeric le; 6 steps at which only the +Inf bucket has a sample
+		variant := r.Intn(8) // 7 several buckets with bounds below or at zero; 0-2 regular; 3 no +Inf bucket for foo{a="y"}; 4 non-monotonic counts; 5 gaps and a non-numeric le; 6 steps at which only the +Inf bucket has a sample
 		if variant == 6 {
 			c.Lookback = 20_000
 		}
@@ -694,6 +694,9 @@ func genCase(seed int64, id int, o GenOpts) *Case {
 				}
 				if variant == 5 && name == "bar" && a == "x" {
 					les = []string{"0.1", "1", "+Inf", "many"}
+				}
+				if variant == 7 {
+					les = []string{"-5", "-1", "0", "1", "+Inf"}
 				}
 				for k, le := range les {
 					var smp []Sample
